@@ -1,26 +1,25 @@
 #!/usr/bin/env python3
-"""Builds seeded/MATRIX.md from the tsv files written by tools/matrix.sh."""
-import sys, glob, collections
-rows = collections.defaultdict(dict)
+"""Builds seeded/MATRIX.md from the tsv files written by tools/diag.sh
+(every seeded change x the check of its own property, quick tier, seed 1)."""
+import sys, json, os
+rows = []
 for f in sys.argv[1:]:
     for l in open(f):
         p = l.rstrip("\n").split("\t")
-        if len(p) == 3:
-            rows[p[0]][p[1]] = p[2].replace("rc=", "")
-props = [f"C{i:02d}" for i in range(1, 21)]
-out = ["# Cross matrix: seeded change x check (quick tier, seed 1)\n",
-       "`V` = the check exits 1 with a VIOLATION line, `.` = held (exit 0), `?` = inconclusive (exit 2), blank = not run.",
-       "Produced by `tools/matrix.sh` (each change applied in a scratch worktree of /repo HEAD) and `tools/mkmatrix.py`.\n",
-       "| seeded \\ check | " + " | ".join(p[1:] for p in props) + " |", "|---|" + "---|" * len(props)]
-sym = {"1": "V", "0": ".", "2": "?"}
-own_caught = 0
-for m in sorted(rows):
-    cells = [sym.get(rows[m].get(p, ""), " ") for p in props]
-    own = m[:3]
-    if rows[m].get(own) == "1":
-        own_caught += 1
-    out.append(f"| `{m}` | " + " | ".join(cells) + " |")
-out.append(f"\n{own_caught} of {len(rows)} seeded changes are caught by the check of their own property; "
-           f"on average a change is caught by {sum(1 for m in rows for p in props if rows[m].get(p)=='1')/max(1,len(rows)):.1f} checks.")
+        if len(p) >= 3:
+            rows.append((p[0], p[1], p[2].replace("rc=", ""), p[3] if len(p) > 3 else ""))
+rows.sort()
+sym = {"1": "VIOLATION (exit 1)", "0": "held (exit 0) — NOT caught", "2": "inconclusive (exit 2)"}
+out = ["# Seeded changes x the check of their own property (quick tier, seed 1)\n",
+       "Produced by `tools/diag.sh` (each change applied in a scratch worktree of /repo's HEAD, the harness pointed at it) and",
+       "`tools/mkmatrix.py`. *observations* = violation observations not covered by a known finding: a small number means the",
+       "catch rests on few cases (deterministic table entries — C10's nil sweep, C17's scenarios, one pair of the C14 sweep — or",
+       "race reports, which are de-duplicated by entry-point pair).\n",
+       "| seeded change | property | outcome of that property's check | observations |", "|---|---|---|---|"]
+caught = 0
+for m, p, rc, n in rows:
+    caught += rc == "1"
+    out.append(f"| `{m}` | {p} | {sym.get(rc, rc)} | {n} |")
+out.append(f"\n{caught} of {len(rows)} seeded changes are reported as a VIOLATION by the check of their own property.")
 open("/verif/seeded/MATRIX.md", "w").write("\n".join(out) + "\n")
-print("\n".join(out[-3:]))
+print(out[-1])
